@@ -189,8 +189,12 @@ def run_scenario(sc):
                 before = [s for s in sends if not isinstance(s[4], str)]
                 t0 = loop.time()
                 net.ev("flush_call", pending=sum(1 for s in before if not s[4].done()))
-                await p.flush()
-                ctl["flushed"] = {"t": loop.time() - t0,
+                exc = None
+                try:
+                    await p.flush()
+                except Exception as e:  # noqa: BLE001
+                    exc = type(e).__name__
+                ctl["flushed"] = {"t": loop.time() - t0, "exc": exc,
                                   "unresolved_after": sum(1 for s in before if not s[4].done())}
 
         async def task(ti, items):
@@ -247,8 +251,12 @@ def run_scenario(sc):
             npend = sum(1 for s in before if not s[4].done())
             net.ev("flush_call", pending=npend)
             t0 = loop.time()
-            await p.flush()
-            flushes.append({"at": delay, "t": loop.time() - t0, "pending_at_call": npend,
+            exc = None
+            try:
+                await p.flush()
+            except Exception as e:  # noqa: BLE001  (flush() is documented to wait, not to raise a record's error)
+                exc = type(e).__name__
+            flushes.append({"at": delay, "t": loop.time() - t0, "pending_at_call": npend, "exc": exc,
                             "unresolved_after": sum(1 for s in before if not s[4].done())})
 
         early = {}
@@ -291,6 +299,9 @@ def run_scenario(sc):
                            "unresolved_after": sum(1 for f in futs if not f.done())}
         except asyncio.TimeoutError:
             out["stop"] = {"t": None, "timeout": True}
+        except Exception as e:  # noqa: BLE001  (stop() must not surface a record's error)
+            out["stop"] = {"t": loop.time() - t0, "exc": type(e).__name__, "unresolved_before": pre_stop_unresolved,
+                           "unresolved_after": sum(1 for f in futs if not f.done())}
         out["flush"] = ctl["flushed"]
         # C19: what is left after stop(), and later API calls
         for _ in range(5):
